@@ -274,6 +274,37 @@ fn random_stream(ctx: &mut Ctx, n: usize) {
     }
 }
 
+/// Tagged stream for the known finding C13/interning-merges-signed-zero: numeric leaves of the expression
+/// and substituted numbers that differ only in the sign of a zero component, around operations that see the
+/// sign (sqrt's branch cut, division by zero, powc's ln).  Every disagreement here must carry the kf: tag.
+fn signed_zero_stream(ctx: &mut Ctx, n: usize) {
+    use ExpressionFunction::*;
+    let mut rng = ctx.rng(1313);
+    for _ in 0..n {
+        let mut leaves = vec![var("t"), var("u")];
+        for _ in 0..3 {
+            let re = if rng.chance(1, 2) { -4.0 } else { random_f64_signed_zero(&mut rng) };
+            leaves.push(num(re, random_f64_signed_zero(&mut rng)));
+        }
+        let alphabet = Alphabet {
+            leaves,
+            functions: vec![SquareRoot, Exponent],
+            prefix: vec![PrefixOperator::Minus],
+            infix: vec![InfixOperator::Plus, InfixOperator::Slash, InfixOperator::Caret],
+        };
+        let d = 1 + rng.below(3) as usize;
+        let e = random_expr(&mut rng, &alphabet, d);
+        let mut sigma: Subst = vec![];
+        for v in ["t", "u"] {
+            if rng.chance(3, 4) {
+                let re = if rng.chance(1, 2) { -4.0 } else { random_f64_signed_zero(&mut rng) };
+                sigma.push((v.to_string(), num(re, random_f64_signed_zero(&mut rng))));
+            }
+        }
+        emit(ctx, &e, &vec![], &vec![], &sigma);
+    }
+}
+
 fn main() {
     main_with(run)
 }
@@ -325,4 +356,7 @@ fn run(ctx: &mut Ctx) {
 
     // 3. seeded random trees to depth 7, random partial assignments, 20 % expression-valued substitutions
     random_stream(ctx, if ctx.quick() { 20_000 } else { 300_000 });
+
+    // 4. the tagged signed-zero stream (known finding C13/interning-merges-signed-zero)
+    signed_zero_stream(ctx, if ctx.quick() { 500 } else { 5_000 });
 }
